@@ -56,14 +56,34 @@ def run_seq(seq, seed=0):
             lost.append(1)
             trace.append({"ev": "lost", "t": ms(loop.time())})
 
+        # every second sequence: the heartbeat of another connection of the same process runs alongside (failing, recovering, failing
+        # for good); it is not observed
+        seq2 = iter(["ok", "fail", "none", "ok", "fail", "fail", "fail", "fail", "ok", "none", "none", "none", "none"]) if len(seq) % 2 else None
+
+        async def send2():
+            o = next(seq2, "ok")
+            if o == "none":
+                await asyncio.sleep(10)
+                return False, None
+            return (True, None) if o == "ok" else (False, "E_CONNECTION_ID")
+
+        async def onfail2():
+            hb2.stop()
+
         async def main():
             hb = ConnectionHeartbeat("t", send, onfail)
             trace.append({"ev": "start", "t": ms(loop.time()), "rate": ms(HEARTBEAT_RATE)})
+            if seq2 is not None:
+                hb2.start()
+                await asyncio.sleep(0)
             hb.start()
             await asyncio.sleep(HEARTBEAT_RATE * (len(seq) + 2) + 100)
             alive = hb._task is not None and not hb._task.done()
             trace.append({"ev": "end", "alive": 1 if alive else 0, "lost": len(lost)})
             hb.stop()
+            hb2.stop()
+
+        hb2 = ConnectionHeartbeat("u", send2, onfail2)
 
         loop.run_until_complete(main())
     return trace
